@@ -2395,6 +2395,14 @@ private:
                 }
             }
             --my_tries;
+            // A decrement that arrived during this put could not start forwarding (the put was
+            // counted in my_tries); its credit has just been applied, so re-check the predecessors
+            if ( check_conditions() && is_graph_active(this->my_graph) ) {
+                d1::small_object_allocator allocator{};
+                typedef forward_task_bypass<limiter_node<T, DecrementType>> task_type;
+                graph_task* ftask = allocator.new_object<task_type>(my_graph, allocator, *this);
+                spawn_in_graph_arena(graph_reference(), *ftask);
+            }
         }
         return rtask;
     }
